@@ -1022,10 +1022,13 @@ func sourceCase(rp Replay) (*Case, error) {
 			cls = "source-tags-print-not-reparsable"
 			// the two shapes tag.Set.Line() is known to print unquoted (see known_findings.d/C12.txt); anything else is new
 			switch {
-			case tagsValue(s1, func(v string) bool { return strings.Contains(v, "\n") }):
+			case strings.Contains(p, "\n") && tagsValue(s1, func(v string) bool { return strings.Contains(v, "\n") }):
+				// the line break is in the print itself (a value with a line feed that is written quoted is not the reason)
 				cls = "source-tags-line-break-not-reparsable"
 			case tagsValue(s1, func(v string) bool { return strings.IndexByte(v, '"') > 0 }):
 				cls = "source-tags-inner-dquote-not-reparsable"
+			case tagsValue(s1, func(v string) bool { return strings.Contains(v, "\n") }):
+				cls = "source-tags-line-break-not-reparsable"
 			}
 		}
 		cs.Oracle = &Violation{Class: cls, Detail: fmt.Sprintf("%q parses, its print %q does not: %v", rp.Text, p, err2)}
